@@ -276,7 +276,16 @@ impl<'a> G<'a> {
             }
             22..=23 => {
                 self.f("if");
-                match self.rng.below(4) {
+                match self.rng.below(8) {
+                    // `is` with an explicit DISCARD pattern (the short form `if x is Foo` means "bind x", not "_"),
+                    // with a named discard, with another variable, and in an `else if` position
+                    4 => format!("if {} is _: Foo {{\n{}\n}} else {{\n{}\n}}", self.name(), self.sequence(d1), self.sequence(d1)),
+                    5 => format!("if {} is _other: Foo {{\n{}\n}} else {{\n{}\n}}", self.operand(d1), self.sequence(d1), self.sequence(d1)),
+                    6 => format!("if {} is {}: Foo {{\n{}\n}} else {{\n{}\n}}", self.name(), self.name(), self.sequence(d1), self.sequence(d1)),
+                    7 => format!(
+                        "if {} {{\n{}\n}} else if {} is _: mod.Bar {{\n{}\n}} else if {} is Foo {{\n{}\n}} else {{\n{}\n}}",
+                        self.operand(d1), self.sequence(d1), self.name(), self.sequence(d1), self.name(), self.sequence(d1), self.sequence(d1)
+                    ),
                     0 => format!("if {} {{\n{}\n}} else {{\n{}\n}}", self.operand(d1), self.sequence(d1), self.sequence(d1)),
                     1 => format!(
                         "if {} {{\n{}\n}} else if {} {{\n{}\n}} else {{\n{}\n}}",
